@@ -43,8 +43,10 @@ build() {
   cp "$REPO/go.sum" "$DIR/go.sum"
   FLAGS=""; [ $RACE = 1 ] && FLAGS="-race"
   (cd "$VERIF/harness" && go build $FLAGS -modfile="$DIR/go.mod" -overlay "$DIR/overlay.json" -o "$BIN" .) > "$DIR/build.log" 2>&1 || { cat "$DIR/build.log"; echo "INFRA: harness build failed"; exit 2; }
-  # keep the cache small: newest 6 build directories
-  ls -1dt "$CACHE"/*/ 2>/dev/null | tail -n +7 | xargs -r rm -rf
+  # keep the cache small: newest 8 build directories (never one used in the last 15 minutes)
+  for d in $(ls -1dt "$CACHE"/*/ 2>/dev/null | tail -n +9); do
+    [ -n "$(find "$d" -maxdepth 0 -mmin +15)" ] && rm -rf "$d"
+  done
 }
 
 [ -x "$BIN" ] || build
